@@ -42,6 +42,7 @@ structure ProgState where
   ops : List POp := []       -- newest first
   filter : Option Nat := none
   bad : Bool := false
+  oracleOnly : Bool := false
 
 /-- First pool index with the same description. -/
 def canonK (sites : List CallSite) (k : Nat) : Nat :=
@@ -82,7 +83,8 @@ def showLog (showM : Nat → String) (regSite : Nat → String) (calls : List Ho
 
 def progFlush (st : ProgState) : List String :=
   if !st.active then [] else
-  if st.bad then ["bad-op"] else
+  if st.bad then ["bad-input"] else
+  if st.oracleOnly then [] else
   let sites := st.sites
   let ops := st.ops.reverse
   let stream := senderStream sites ops
@@ -110,11 +112,15 @@ def progStep (st : ProgState) (ts : List String) : ProgState × List String :=
   match ts with
   | "case" :: _ => ({ active := true }, progFlush st ++ [" ".intercalate ts])
   | ["__end__"] => ({}, progFlush st)
-  | "site" :: _ :: rest =>
+  | "site" :: k :: rest =>
     match pCallSite rest with
-    | some (d, []) => ({ st with sites := st.sites ++ [d] }, [])
+    | some (d, []) =>
+      if k.toNat? = some st.sites.length then ({ st with sites := st.sites ++ [d] }, [])
+      else ({ st with bad := true }, [])
     | _ => ({ st with bad := true }, [])
   | ["filter", l] => ({ st with filter := l.toNat? }, [])
+  | ["sender", "start", _] => ({ st with oracleOnly := true }, [])
+  | ["threads", _, _] => (st, [])
   | "p" :: rest =>
     match pPOp rest with
     | some (op, []) => ({ st with ops := op :: st.ops }, [])
